@@ -71,7 +71,7 @@ def write(pid, tier, seed, results, rc, wall, known_lines, inconclusive, viol_pa
         "known_findings_reported": known_lines,
         "violation_replays": viol_paths,
         "exit_code": rc,
-        "explanation": prop.get("explanation", ""),
+        "explanation": prop.get("explanation") or (prop.get("level_text", "") + " Trusted base and bounds: see trusted_base and bounded_obligations."),
     }
     ev = {
         "property_id": pid,
